@@ -781,7 +781,49 @@ fn part_ids(case_seed: u64, r: &mut Report) {
         r.violation(sig, format!("decompress_ids(compress_ids(x)) != x ({}): x = {} decoded = {}", class, show(&ids), show(&dec)), replay);
         return;
     }
-    r.count("ids_elements_checked", ids.len() as u64);
+    // every case also carries a short list built from the varint group boundaries: ids, or wrapping
+    // gaps between consecutive ids, of 2^k - 1, 2^k and 2^k + 1 (an off-by-one at the edge of one
+    // 7-bit group only shows for exactly that value). Drawn from a second stream so that the
+    // cases above stay what they were.
+    let mut brng = Rng::new(case_seed ^ 0xB0DA_7157_0C20);
+    let edge = |rng: &mut Rng| -> u64 {
+        let k = if rng.bool() { 7 * rng.below(10) } else { rng.below(64) };
+        let base = if k >= 64 { 0u64 } else { 1u64 << k };
+        match rng.below(3) {
+            0 => base.wrapping_sub(1),
+            1 => base,
+            _ => base.wrapping_add(1),
+        }
+    };
+    let nb = 1 + brng.below(6);
+    let gaps: Vec<u64> = (0..nb).map(|_| edge(&mut brng)).collect();
+    let edges: Vec<u64> = if brng.bool() {
+        gaps.clone()
+    } else {
+        let mut acc = if brng.bool() { 0u64 } else { edge(&mut brng) };
+        let mut v = vec![acc];
+        for g in &gaps {
+            acc = acc.wrapping_add(*g);
+            v.push(acc);
+        }
+        v
+    };
+    r.count("ids[group-boundaries]", 1);
+    let replay = json!({"part": "ids", "case_seed": case_seed});
+    let vb = varint_decode(&varint_encode(&edges));
+    if vb != edges {
+        r.violation("ids-roundtrip:varint-altered", format!("varint_decode(varint_encode(x)) != x for x = {} : got {} (encoded {:?})", show(&edges), show(&vb), varint_encode(&edges)), replay);
+        return;
+    }
+    let eb = compress_ids(&edges);
+    let db = decompress_ids(&eb);
+    if db != edges || delta_decode(&delta_encode(&edges)) != edges {
+        let sig = if is_sorted(&edges) { "ids-roundtrip:sorted-list-altered" } else { "ids-roundtrip:unsorted-list-altered" };
+        r.violation(sig, format!("decompress_ids(compress_ids(x)) != x (group-boundaries): x = {} decoded = {}", show(&edges), show(&db)), replay);
+        return;
+    }
+    r.count("ids_elements_checked", (ids.len() + edges.len()) as u64);
+    r.eval(hash_bytes(&eb) ^ 0xED6E, true);
     r.eval(hash_bytes(&enc) ^ ids.len() as u64, ids.len() >= 2);
     if r.want_sample() && ids.len() >= 2 && ids.len() < 12 {
         r.sample(json!({"part": "ids", "class": class, "ids": ids.iter().map(|x| x.to_string()).collect::<Vec<_>>(), "encoded_hex": hex(&enc)}));
